@@ -8,10 +8,10 @@ META = dict(not_applicable='extra behaviour beyond the listed properties; run by
 def run(tier):
     v = vf.Verdict('X13', tier)
     vf.build()
-    nprogs, tap_ok, counts, skipped = vf.suite_flow(v, ('bb', 'crc'))
+    nprogs, tap_ok, counts, skipped = vf.suite_flow(v, ('bb', 'crc', 'vi'))
     v.cov['distinct_nontrivial'] += sum(counts.values())
     v.cov['rule'] = ('%d test programs of the repository (%d TAP assertions, all passing with the wrappers in place); %d recorded byte-buffer calls '
-                     '(%d on objects that are not well-formed or larger than 1 KiB were let through unrecorded) and %d checksum calls, each validated as the '
-                     'action of that name from the recorded pre-state, with the action properties of C18 checked on every step' % (nprogs, tap_ok, counts['bb'], skipped, counts['crc']))
+                     '(%d on objects that are not well-formed or larger than 1 KiB were let through unrecorded) %d checksum calls and %d varint calls (buffer decoders, encoders, length queries; VarintTrace.tla), each validated as the '
+                     'action of that name from the recorded pre-state, with the action properties of C18 checked on every step' % (nprogs, tap_ok, counts['bb'], skipped, counts['crc'], counts['vi']))
     v.cov['exhaustive'] = False
     v.finish()
